@@ -54,6 +54,17 @@ def run(ctx):
             skip.append((cpx, src, cpx.bb))
         elif sd is not None and sd.op == 'phi':
             skip += [(cpx, v, f.blocks[l]) for v, l in sd.incoming if f.blocks[l] not in opreach]
+    region_of = {}
+    if not skip:
+        # the copy-out (and the choice of its source) may be shared by both cases, with the rebuild and the stamping each behind a
+        # test of the same "destination is missing" value: follow only paths that are consistent in that value
+        from ..cfg import feasible_reachable
+        Rskip = feasible_reachable(f, f.entry, avoid_blocks={opc.bb})
+        for cpx in copies:
+            if cpx.bb in Rskip:
+                src = strip_ptr_casts(f, cpx.ops[1])
+                skip.append((cpx, src, cpx.bb))
+                region_of[id(cpx)] = Rskip
     if not skip:
         r.fail('destination-available path', func=f.name, sig='no path returns the supplied fragment', loc=cp.loc,
                msg='every path to the copy-out passes the backend reconstruct: a supplied destination is recomputed instead of returned')
@@ -73,13 +84,15 @@ def run(ctx):
             A, _ = derived_pointers(f, list(vals))
             writers = []
             for i in f.insts():
-                if i.op == 'call' and i is not cpx and (lb in reachable_from(i.bb) or i.bb is lb) and i.bb not in opreach:
+                in_region = (i.bb in region_of[id(cpx)] and cpx.bb in reachable_from(i.bb)) if id(cpx) in region_of else \
+                            ((lb in reachable_from(i.bb) or i.bb is lb) and i.bb not in opreach)
+                if i.op == 'call' and i is not cpx and in_region and not (i.callee or '').startswith('@llvm.dbg'):
                     for ai, a in enumerate(i.ops):
                         if a in A:
                             for cal in cg.callees(f, i):
                                 if E.writes_through(cal, ai, deep=False):
                                     writers.append((i, cal))
-                elif i.op == 'store' and i.ops[1] in A and i.bb not in opreach:
+                elif i.op == 'store' and i.ops[1] in A and (in_region if id(cpx) in region_of else i.bb not in opreach):
                     writers.append((i, 'store'))
             if ok_src and not writers:
                 r.ok('supplied destination: element of data[]/parity[] copied out, untouched', func=f.name, loc=cpx.loc, facts={'source': C.val(v)})
